@@ -100,6 +100,7 @@ func runC10(p *core.Prog, r *core.Result) {
 		"R10.2 the version order handed to the MVS library: Max returns one of its two arguments as decided by cmpVersion, which ranks the root's empty version above every other before delegating to semver; Required answers the root's list exactly for the empty path",
 		"R10.3 the build list handed back to dawn contains every element the MVS library returned",
 		"R10.4 ordered results built from Go-map iteration inside internal/mvs are sorted before use or are order-insensitive; no map is folded into another under a colliding key",
+		"R10.6 the version-resolution packages never order strings with < <= > >= (versions and major suffixes are ordered by semver.Compare only)",
 		"R10.5 a fetched project's summary lists every requirement of its configuration, one to one, in sorted name order",
 	}
 	r.NotDecided = []string{"that the result is the minimal-version-selection solution for all graphs (the algorithm lives in github.com/pgavlin/mvs, outside the repository; behavioural)", "network/VCS behaviour behind the resolver"}
@@ -396,6 +397,39 @@ func runC10(p *core.Prog, r *core.Result) {
 		}
 	}
 
+	// ---- R10.6 versions are ordered by semver, never as strings
+	nCmp, nStr := 0, 0
+	for _, fn := range p.ModuleFuncs() {
+		if fn.Pkg == nil || (fn.Pkg.Pkg.Path() != pkgMvs && fn.Pkg.Pkg.Path() != pkgProj) {
+			continue
+		}
+		k := 0
+		core.Instrs(fn, func(in ssa.Instruction) {
+			if c, ok := in.(*ssa.Call); ok && core.Callee(c) != nil && core.Callee(c).Pkg != nil && core.Callee(c).Pkg.Pkg.Path() == "golang.org/x/mod/semver" && core.Callee(c).Name() == "Compare" {
+				nCmp++
+			}
+			b, ok := in.(*ssa.BinOp)
+			if !ok {
+				return
+			}
+			switch b.Op {
+			case token.LSS, token.LEQ, token.GTR, token.GEQ:
+			default:
+				return
+			}
+			if bt, ok := b.X.Type().Underlying().(*types.Basic); !ok || bt.Info()&types.IsString == 0 {
+				return
+			}
+			nStr++
+			k++
+			r.Bad("R10.6", fmt.Sprintf("%s#string-order-%d", fname(fn), k), p.InstrPos(b), "strings are ordered with %s in the version-resolution code: versions and major-version suffixes do not order as strings (\"v10\" < \"v2\"), so e.g. the v10..v19 lines of a project are folded into its v0/v1 path and one of two reachable projects vanishes from the build list", b.Op)
+		})
+	}
+	if nStr == 0 {
+		r.OK("R10.6", "internal/mvs+internal/project#no-string-ordering", "-", "no relational comparison of strings; versions are ordered by semver.Compare (%d call sites)", nCmp)
+	}
+	r.Floor("R10.6", nCmp, 2, "semver.Compare call sites")
+
 	// ---- R10.4
 	nR := 0
 	for _, fn := range p.ModuleFuncs() {
@@ -437,6 +471,7 @@ func runC11(p *core.Prog, r *core.Result) {
 		"R11.1 contract with the MVS library's Downgrade: Previous answers the sentinel version \"none\" (never dawn's empty root version) when there is no earlier version; Upgrade and Previous return the root unchanged",
 		"R11.2 every existing requirement name of a project that stays in the graph is kept, and such projects are not given fresh names",
 		"R11.3 a fresh requirement name is only used after a lookup of that very name in the new requirement set has failed",
+		"R11.5 get decides between upgrade, downgrade and no-op by comparing the requested version with the version selected in the build list, not with the root's own requirement entry",
 		"R11.4 requesting the version that is already selected returns the root's requirements unchanged",
 	}
 	r.NotDecided = []string{"build-list equalities after tidy/upgrade/downgrade (algorithm in a dependency; behavioural)", "query resolution against tagged versions (ranges, latest, patch)"}
@@ -594,6 +629,29 @@ func runC11(p *core.Prog, r *core.Result) {
 			if (notLess && notGreater) || isEq {
 				okNoop = true
 			}
+		}
+		// ---- R11.5 the direction of the edit (upgrade / downgrade / nothing) is decided against the version MVS
+		// *selected* for the project (an element of a build list), never against the root's own requirement entry
+		if cmpCall != nil {
+			fromBuildList := func(v ssa.Value) bool {
+				return core.DependsOn(v, core.SliceOpts{Stores: true}, func(x ssa.Value) bool {
+					e, ok := x.(*ssa.Extract)
+					if !ok || e.Index != 0 {
+						return false
+					}
+					c, ok := e.Tuple.(*ssa.Call)
+					return ok && core.Callee(c) != nil && core.Callee(c).Name() == "BuildList"
+				})
+			}
+			fromRootReqs := func(v ssa.Value) bool {
+				return core.DependsOn(v, core.SliceOpts{Stores: true}, func(x ssa.Value) bool {
+					return core.LoadOfField(x, pkgMvs, "mvsProject", "Requirements")
+				})
+			}
+			a0, a1 := cmpCall.Call.Args[0], cmpCall.Call.Args[1]
+			sel := fromBuildList(a0) || fromBuildList(a1)
+			own := fromRootReqs(a0) || fromRootReqs(a1)
+			r.Check(sel && !own, "R11.5", "internal/mvs.get#compares-selected-version", p.InstrPos(cmpCall), "upgrade vs downgrade is decided by comparing the requested version with the version selected in the build list", "the requested version is compared with something other than the build list's selected version (e.g. the root's own requirement entry, which can be lower than what another requirement forces): a downgrade is then treated as an upgrade or a no-op, the build list keeps the project above the requested version and repeating the operation changes it again")
 		}
 		r.Check(okNoop, "R11.4", "internal/mvs.get#same-version-is-noop", p.Pos(get.Pos()), "when the selected version equals the requested one the root's requirements are returned as they are", "requesting the already selected version does not return the requirements unchanged: repeating an operation is not idempotent")
 	}
